@@ -170,7 +170,7 @@ def gen_single(rng, t, inp, vanishing=False):
     }
 
 
-def gen_two_hap(rng, t, unprefixed=False):
+def gen_two_hap(rng, t, unprefixed=False, primary=None):
     """Two haplotypes in one map; returns (input scaffolds, pretext, design).
     unprefixed: also input scaffolds whose names carry no haplotype prefix (expected in the primary assembly)."""
     inp = []
@@ -210,7 +210,7 @@ def gen_two_hap(rng, t, unprefixed=False):
     spell = rng.choice([str.upper, str.lower, str.capitalize, lambda x: x])
     tagcase = (spell(H1), spell(H2))
     use_tags = rng.random() < 0.7
-    primary = rng.random() < 0.25
+    primary = (rng.random() < 0.25) if primary is None else primary
     prefix = rng.choice(["SUPER_", "SUPER_", "CHR"])
     design = []
     ngroups = rng.randint(1, 4)
@@ -287,3 +287,29 @@ def gen_two_hap(rng, t, unprefixed=False):
         "pieces": all_pieces,
         "labels": sorted(labels),
     }
+
+
+def add_haplotig_slivers(rng, inp, pt, t):
+    """Hostile extra for a designed map: Haplotig-tagged Pretext scaffolds whose bait is shorter than a
+    texel and only touches the last / first few bases of a long contig.  Remapping drops them (the
+    lookup result is trimmed to nothing) - but their H_n number was already handed out."""
+    added = 0
+    if t < 3:
+        return 0
+    for _ in range(rng.randint(1, 3)):
+        sc = rng.choice(inp)
+        cands = [(x1, x2) for x1, x2, r in rows_with_pos(sc[1]) if r[0] == "F" and (x2 - x1 + 1) > 3 * t + 3]
+        if not cands:
+            continue
+        x1, x2 = rng.choice(cands)
+        # entirely inside the long contig (a bait reaching past it could swallow a tiny neighbour
+        # and so change what the designed pieces are expected to contain)
+        ln = rng.randint(1, max(1, int(t) - 1))
+        if rng.random() < 0.5:
+            a, b = x2 - ln + 1, x2
+        else:
+            a, b = x1, x1 + ln - 1
+        pos = rng.randint(0, len(pt))
+        pt.insert(pos, [f"Sliver_{len(pt) + 1}", [["F", sc[0], a, b, rng.choice([1, -1]), ["Haplotig"]]]])
+        added += 1
+    return added
